@@ -626,10 +626,15 @@ func (t *Tracer) execIf(fr *Frame, i *ssa.If, st State, k func(State, []Ref)) {
 				fake := &ssa.If{Cond: vcond}
 				evs = append(evs, t.Spec.Branch(t, vfr, fake, d != vflip)...)
 				// ... and, for a predicate over its parameters only, in the caller's own terms
-				if vfr != nil && vfr != fr && vfr.Site != nil && vfr.Parent == fr {
-					if sub, pure := substParams(vfr.Fn, vfr.Site.Common().Args, vcond, 0); pure && sub != vcond {
-						evs = append(evs, t.Spec.Branch(t, fr, &ssa.If{Cond: sub}, d != vflip)...)
+				// (through every level of nested predicates: isQueueing() → queueFlag.any() → q != 0)
+				cur, f := vcond, vfr
+				for lvl := 0; lvl < 4 && f != nil && f != fr && f.Site != nil && f.Clo == nil; lvl++ {
+					sub, pure := substParams(f.Fn, f.Site.Common().Args, cur, 0)
+					if !pure || sub == cur {
+						break
 					}
+					cur, f = sub, f.Parent
+					evs = append(evs, t.Spec.Branch(t, f, &ssa.If{Cond: cur}, d != vflip)...)
 				}
 			}
 			for _, e := range evs {
@@ -1511,6 +1516,12 @@ func (t *Tracer) interesting(f *ssa.Function, depth int) (res bool) {
 						fake := &ssa.If{Cond: r.Results[0]}
 						if len(t.Spec.Branch(t, fr, fake, true)) > 0 || len(t.Spec.Branch(t, fr, fake, false)) > 0 {
 							return true
+						}
+						// the answer of a further predicate over a value read here (`return s.queueFlag.any()`)
+						if view, _ := t.P.predicateView(fake); view != nil {
+							if len(t.Spec.Branch(t, fr, view, true)) > 0 || len(t.Spec.Branch(t, fr, view, false)) > 0 {
+								return true
+							}
 						}
 						if t.Spec.Eval != nil {
 							return true
